@@ -21,6 +21,26 @@ def aggregates_of(P, adt, variant=None):
     return out
 
 
+def ctor_value_refs(P, adt):
+    """[(body, bb, variant name)]: bodies that mention a tuple-variant / tuple-struct constructor of ADT as a function
+    value (`Exchange::Rate` handed on as `fn(..) -> Exchange`): calling that value builds the ADT, so a who-may-construct
+    rule has to count the mention as a construction site."""
+    a = P.adts.get(adt)
+    if not a:
+        return []
+    names = {adt + "::" + v["name"]: v["name"] for v in a.get("variants", []) if v.get("name")}
+    names[adt] = None
+    out = []
+    for b in P.bodies.values():
+        for bb, o in b.iter_operands():
+            if o.get("k") == "const" and (o.get("fn") or o.get("fn_resolved")):
+                for n in (norm(o.get("fn")), norm(o.get("fn_resolved"))):
+                    if n in names:
+                        out.append((b, bb, names[n]))
+                        break
+    return out
+
+
 def callers_of(P, key):
     """[(body, bb, term)] of direct calls resolved (or declared) to key"""
     out = []
